@@ -172,6 +172,22 @@ class FnUninit:
         if root in self.objs: return root, None
         return None, None
 
+    def addr_alternatives(self, o, depth=0):
+        """objects a phi / select of pointers may denote: [(root, constant offset)]"""
+        if o["k"] != "inst" or depth > 3: return []
+        i = self.fn.imap[o["v"]]
+        if i.op == "phi": ops = [inc["v"] for inc in i["incoming"]]
+        elif i.op == "select": ops = [i.ops[1], i.ops[2]]
+        elif i.op == "bitcast": ops = [i.ops[0]]
+        else: return []
+        out = []
+        for x in ops:
+            if x["k"] == "null": continue
+            r, off = self.addr(x)
+            if r is not None: out.append((r, off))
+            else: out += self.addr_alternatives(x, depth + 1)
+        return out
+
     def init_state(self):
         st = {}
         for r, o in self.objs.items():
@@ -231,7 +247,13 @@ class FnUninit:
                     a = i.ops[n]
                     if not a["t"].endswith("*"): continue
                     root, off = self.addr(a)
-                    if root is None: continue
+                    if root is None:
+                        # a pointer that is one of several objects (cond ? &param->field : &local): the callee may read any of them
+                        # (reads are obligations for each alternative; nothing is credited as written)
+                        if s is not None and s.rbw.get(n, 0):
+                            for (r2, o2) in self.addr_alternatives(a):
+                                if o2 is not None: self.read(st, r2, o2, 0, i, "read by callee %s (first at %s)" % (c, s.rbw_site.get(n, "?")), record, mask=(s.rbw[n] << o2))
+                        continue
                     if s is None:
                         # unknown external: assume it initialises what it is given
                         newst = newst or dict(st); newst[root] = ALL; continue
